@@ -88,3 +88,19 @@ Proof.
   rewrite Hrho. apply Rabs_le. lra.
 Qed.
 End Sin.
+
+(* ---- C07: a pure delay on a sinusoid (no leakage from the image: W(2 w0) = 0, e.g. rectangular window on an integer bin) ----
+   x_n = A cos(w0 n + phi), y_n = x_{n-d} = A cos(w0 n + phi - w0 d):  X conj(Y) = |X|^2 e^{+i w0 d},
+   so Hxy = conj(XY)/XX = e^{-i w0 d}: a lagging output has negative phase, magnitude 1. *)
+Theorem delayed_sinusoid_cross (win : nat -> R) (A w0 phi th : R) (L : Z) :
+  C2 win w0 phi L = 0 -> S2 win w0 phi L = 0 -> C2 win w0 (phi - th) L = 0 -> S2 win w0 (phi - th) L = 0 ->
+  let X := dft_def w0 (sig win A w0 phi) L in let Y := dft_def w0 (sig win A w0 (phi - th)) L in
+  let P := fst X * fst X + snd X * snd X in
+  pw_csd RA X Y = (P, P, P * cos th, P * sin th).
+Proof.
+  intros Hc Hs Hc' Hs'. cbn zeta. rewrite !sinusoid_response, Hc, Hs, Hc', Hs'.
+  unfold pw_csd. cbn [fst snd add sub mul RA]. rewrite cos_minus, sin_minus.
+  assert (Hp : cos phi * cos phi = 1 - sin phi * sin phi) by (pose proof (sin2_cos2 phi) as E; unfold Rsqr in E; lra).
+  assert (Ht : cos th * cos th = 1 - sin th * sin th) by (pose proof (sin2_cos2 th) as E; unfold Rsqr in E; lra).
+  apply pair4_eq; unfold Rdiv; ring [Hp Ht].
+Qed.
